@@ -575,6 +575,11 @@ func (w *World) planDone() bool {
 //go:norace
 func (w *World) RunMain() {
 	for w.Steps < w.MaxSteps {
+		// the plan is complete and nothing is runnable: periodic timers (heartbeats) alone do
+		// not keep the main phase alive
+		if w.planDone() && len(w.enabled()) == 0 {
+			return
+		}
 		if !w.step(true) {
 			return
 		}
